@@ -16,6 +16,7 @@ SEAT_LETTER = {N: 'N', E: 'E', S: 'S', W: 'W'}
 SEAT_NO = {N: 0, E: 1, S: 2, W: 3}
 SEAT_OF_LETTER = {'N': N, 'E': E, 'S': S, 'W': W}
 SEAT_OF_NO = (N, E, S, W)
+SEAT_OF_FORMAL = {'North': N, 'East': E, 'South': S, 'West': W}
 
 
 def left(p):
